@@ -87,7 +87,7 @@ func initExec() {
 }
 
 func cleanupExec() {
-	if scratchBase != "" {
+	if scratchBase != "" && os.Getenv("VERIF_KEEP") == "" {
 		os.RemoveAll(scratchBase)
 	}
 }
@@ -146,7 +146,12 @@ var injectedRe = regexp.MustCompile(`\(INJECTED\)`)
 // execute runs one process of the simulated system in a fresh scratch tree.
 func execute(r *Run) *Result {
 	root := newScratch()
-	defer os.RemoveAll(root)
+	if os.Getenv("VERIF_KEEP") == "" {
+		defer os.RemoveAll(root)
+	} else if r.Job != nil {
+		b, _ := json.Marshal(r.Job)
+		os.WriteFile(filepath.Join(root, ".job.json"), b, 0o644)
+	}
 	res := &Result{}
 	if err := materialize(root, r.FS); err != nil {
 		res.Infra = "materialize: " + err.Error()
